@@ -7,6 +7,7 @@ import (
 	"io"
 	"reflect"
 	"strconv"
+	"strings"
 	"time"
 
 	"github.com/rs/zerolog"
@@ -53,7 +54,7 @@ type Program struct {
 	Entry    string      `json:"entry,omitempty"` // "" = WithLevel(Level); or Trace..Panic, Log, Err
 	Level    int         `json:"level"`           // zerolog level number (6 = NoLevel)
 	Ev       []Op        `json:"ev,omitempty"`
-	Fin      string      `json:"fin,omitempty"` // Msg (default) | Msgf | MsgFunc | Send
+	Fin      string      `json:"fin,omitempty"` // Msg (default) | Msgf | Msgf0 | MsgFunc | Send
 	Msg      B           `json:"msg,omitempty"`
 	Abs      interface{} `json:"abs,omitempty"`      // the abstract program this was concretised from (echoed into the recording)
 	Opaque   []string    `json:"opaque,omitempty"`   // member names whose value comes from an external marshaler (json.Marshal, RawJSON)
@@ -271,6 +272,9 @@ func Finish(e *zerolog.Event, p *Program) {
 		e.Msg(string(p.Msg))
 	case "Msgf":
 		e.Msgf("%s", string(p.Msg))
+	case "Msgf0":
+		// a format without operands: still a format (the message is fmt.Sprintf(format), so %% is one per cent sign)
+		e.Msgf(strings.ReplaceAll(string(p.Msg), "%", "%%"))
 	case "MsgFunc":
 		m := string(p.Msg)
 		e.MsgFunc(func() string { return m })
